@@ -36,6 +36,7 @@ def run(rep, tier):
     kernels(rep, F, D)
     clamp(rep, F)
     nn_coverage(rep, F)
+    line_line(rep, F)
 
 
 def dispatch(rep, F, D):
@@ -244,3 +245,59 @@ def nn_coverage(rep, F):
         rep.ok("R7.5", "both-directions-all-vertices", sample=r[:200])
     else:
         rep.bad("R7.5", "coverage", "the vertex/segment search does not cover every vertex of both operands against every segment of the other: folds over %s, trees from %s" % (srcs, tsrc), where=fn.loc(), detail=r[:600])
+
+
+def line_line(rep, F):
+    """R7.6: the segment-segment kernel: zero iff the segments intersect (exact predicate), otherwise the minimum of the four end-point-to-segment
+    distances (each end point of each operand against the other segment)."""
+    from .c01 import opaque
+    from ..symex import bare
+    rep.rule("R7.6", "distance(Line, Line) = 0 under a.intersects(b), otherwise min over {a.start->b, a.end->b, b.start->a, b.end->a}")
+    fs = F.find(r"Distance<F, &.*line::Line<F>, &.*line::Line<F>>.*::distance$", crates=("geo",))
+    if len(fs) != 1:
+        rep.bad("R7.6", "anchor", "%d Line-Line distance impls" % len(fs))
+        return
+    fn = fs[0]
+    try:
+        ps = [p for p in opaque(F).run(fn) if p.kind == "ret"]
+    except Unanalysable as e:
+        rep.bad("R7.6", "unanalysable", str(e), where=fn.loc())
+        return
+    seen = {}
+    for p in ps:
+        atoms = [(bare(t), v) for t, v in p.pc]
+        inter = [v for a, v in atoms if re.match(r"^intersects\(a2, a3\)$|^intersects\(a3, a2\)$", a)]
+        r = bare(p.ret)
+        if inter == [1]:
+            seen["zero"] = r in ("zero()",)
+            if not seen["zero"]:
+                rep.bad("R7.6", "zero", "intersecting segments give %s" % r[:80], where=fn.loc())
+                return
+        elif inter == [0]:
+            terms = set()
+            t = p.ret
+
+            def flat(x):
+                while x[0] in ("&", "deref"):
+                    x = x[1]
+                if x[0] == "call" and x[1].rsplit("::", 1)[-1] == "min" and len(x[2]) == 2:
+                    flat(x[2][0])
+                    flat(x[2][1])
+                else:
+                    terms.add(bare(x))
+            flat(t)
+            want = {"distance(a1, start_point(a2), a3)", "distance(a1, end_point(a2), a3)", "distance(a1, start_point(a3), a2)", "distance(a1, end_point(a3), a2)"}
+            alt = {w.replace("start_point(a2)", "a2.start").replace("end_point(a2)", "a2.end").replace("start_point(a3)", "a3.start").replace("end_point(a3)", "a3.end") for w in want}
+            if terms == want or terms == alt:
+                seen["min4"] = True
+            else:
+                missing = sorted((want - terms) if (terms & want) else (alt - terms))
+                rep.bad("R7.6", "min4", "for disjoint segments the result is the minimum over %s: missing %s — the closest approach from that end point is never measured" % (sorted(terms), missing), where=fn.loc())
+                return
+        else:
+            rep.bad("R7.6", "guard", "a result path is not decided by a.intersects(b): [%s] -> %s" % (show_pc(p.pc)[:100], r[:60]), where=fn.loc())
+            return
+    if seen.get("zero") and seen.get("min4"):
+        rep.ok("R7.6", "line-line")
+    else:
+        rep.bad("R7.6", "shape", "zero / min-of-four paths not both found (%s)" % seen, where=fn.loc())
